@@ -119,6 +119,8 @@ def correspondence(ctx):
             else:
                 dis.append({"what": "arc_to_cubic%r: impl=%s model=%s" % (a, r[:200], m[:200]), "kind": "arc", "input": list(a)})
     ctx.samples.append({"arc": list(arcs[0]), "impl": enc_impl(*impl_arc(arcs[0]))[:300]})
+    pd, _ = path_level(ctx, 1500 if ctx.thorough() else 300)
+    dis += pd
     ctx.stats["corr_cases"] = n
     ctx.stats["evaluations"] = ctx.stats.get("evaluations", 0) + n
     ctx.stats["distinct_nontrivial"] = nontrivial
@@ -239,11 +241,49 @@ def judge_arc(a):
     return None
 
 
+def arc_paths(rng, n):
+    """path data exercising the arcs_to_cubics callback: relative / absolute arcs after every kind of
+    command, zero radii, coincident end points, repeated arcs"""
+    import pathgen
+    out = []
+    for _ in range(n):
+        seq = [(rng.choice("Mm"), [rng.choice(pathgen.LATTICE), rng.choice(pathgen.LATTICE)])]
+        for _k in range(rng.randint(1, 5)):
+            l = rng.choice("AaAaAaLlHhVvCcQqZz")
+            seq.append((l, pathgen.args_for(rng, l)))
+            if rng.random() < 0.5:
+                l2 = rng.choice("Aa")
+                seq.append((l2, pathgen.args_for(rng, l2)))
+        out.append(pathgen.seq_to_d(seq))
+    return out
+
+
+def path_level(ctx, n):
+    """SVGPath.arcs_to_cubics(): model correspondence on the d string and the Spec.interp judge of C09"""
+    from props import c09
+    ds = arc_paths(ctx.rng, n)
+    outs = ctx.model([c09.model_line("arcs_to_cubics", d) for d in ds])
+    dis = []
+    for d, m in zip(ds, outs):
+        r = c09.impl_op("arcs_to_cubics", d)
+        ctx.count("path-level:" + r.split(" ")[0])
+        if r != m:
+            dis.append({"what": "arcs_to_cubics(%r): impl=%s model=%s" % (d, r[:200], m[:200]), "kind": "path", "input": d})
+    found = c09.judge(ctx, [("arcs_to_cubics", d, None) for d in ds])
+    found = [f for f in found if f.get("tag") != "shorthand-after-arc"]
+    return dis, found
+
+
 def search(ctx, disagreements):
+    if ctx.driver_ok:
+        _, pf = path_level(ctx, 2500 if ctx.thorough() else 500)
+    else:
+        pf = []
+    found0 = pf
     arcs = getattr(ctx, "_arcs", None) or [gen_arc(ctx.rng) for _ in range(3000)]
     if ctx.escalate:
         arcs = arcs + [gen_arc(ctx.rng) for _ in range(3 * len(arcs))]
-    found = []
+    found = list(found0)
     for a in arcs:
         o, why = common.outcome_of(lambda: judge_arc(a))
         if o != "ok":
